@@ -96,20 +96,20 @@ Qed.
 
 (* ------------------------------------------------------------------ the statements proved by mutual induction *)
 Definition ExpOK (e : exp) : Prop :=
-  frag_exp e = true -> mlo_exp e = false ->
+  frag_exp e = true ->
   forall bp flv g X ens en, EQX X (concat ens) en ->
     (forall x, name_mem x X = true -> mentions_exp x e = false) ->
     SSim (fst (tr_exp e bp flv g)) ens ens (b_exp en flv e).
 
 Definition StatOK (s : stat) : Prop :=
-  frag_stat s = true -> mlo_stat s = false ->
+  frag_stat s = true ->
   forall flv slv g X seg rest en, EQX X (concat (seg :: rest)) en ->
     (forall x, name_mem x X = true -> mentions_stat x s = false) ->
     exists seg', SSim (fst (tr_stat s flv slv g)) (seg :: rest) (seg' :: rest) (fst (b_stat en flv slv s)) /\
                  EQX X (concat (seg' :: rest)) (snd (b_stat en flv slv s)).
 
 Definition BlockOK (b : block) : Prop :=
-  frag_block b = true -> mlo_block b = false ->
+  frag_block b = true ->
   forall flv slv g X seg rest en, EQX X (concat (seg :: rest)) en ->
     (forall x, name_mem x X = true -> mentions_block x b = false) ->
     exists seg', SSim (fst (tr_block b flv slv g)) (seg :: rest) (seg' :: rest) (fst (b_block en flv slv b)) /\
@@ -122,18 +122,17 @@ Qed.
 
 (* a list of expressions threaded through the ignore state *)
 Lemma thread_exps flv X ens en : forall es g,
-  Forall ExpOK es -> forallb frag_exp es = true -> existsb mlo_exp es = false ->
+  Forall ExpOK es -> forallb frag_exp es = true ->
   EQX X (concat ens) en ->
   (forall x, name_mem x X = true -> existsb (mentions_exp x) es = false) ->
   SSim (fst (thread (fun x g0 => tr_exp x None flv g0) es g)) ens ens (flat_map (b_exp en flv) es).
 Proof.
-  induction es as [|e r IH]; intros g Hok Hf Hm Heq Hx; [apply SSim_nil|].
+  induction es as [|e r IH]; intros g Hok Hf Heq Hx; [apply SSim_nil|].
   inversion Hok as [|? ? He Hr]; subst. cbn [forallb] in Hf. apply andb_true_iff in Hf. destruct Hf as [Hf1 Hf2].
-  cbn [existsb] in Hm. apply orb_false_iff in Hm. destruct Hm as [Hm1 Hm2].
   cbn [thread flat_map].
-  pose proof (He Hf1 Hm1 None flv g X ens en Heq) as H1.
+  pose proof (He Hf1 None flv g X ens en Heq) as H1.
   destruct (tr_exp e None flv g) as [b1 g1]. cbn [fst] in H1.
-  pose proof (IH g1 Hr Hf2 Hm2 Heq) as H2.
+  pose proof (IH g1 Hr Hf2 Heq) as H2.
   destruct (thread (fun x g0 => tr_exp x None flv g0) r g1) as [b2 g2]. cbn [fst] in *.
   eapply SSim_app.
   - apply H1. intros x Hxx. specialize (Hx x Hxx). cbn [existsb] in Hx. apply orb_false_iff in Hx. apply Hx.
@@ -142,7 +141,7 @@ Qed.
 
 (* the statements of a block *)
 Lemma thread_stats flv slv X rest : forall ss g seg en,
-  Forall StatOK ss -> forallb frag_stat ss = true -> existsb mlo_stat ss = false ->
+  Forall StatOK ss -> forallb frag_stat ss = true ->
   EQX X (concat (seg :: rest)) en ->
   (forall x, name_mem x X = true -> existsb (mentions_stat x) ss = false) ->
   exists seg',
@@ -150,15 +149,14 @@ Lemma thread_stats flv slv X rest : forall ss g seg en,
          (fst (thread (fun s en0 => b_stat en0 flv slv s) ss en)) /\
     EQX X (concat (seg' :: rest)) (snd (thread (fun s en0 => b_stat en0 flv slv s) ss en)).
 Proof.
-  induction ss as [|s r IH]; intros g seg en Hok Hf Hm Heq Hx.
+  induction ss as [|s r IH]; intros g seg en Hok Hf Heq Hx.
   - exists seg. split; [apply SSim_nil|exact Heq].
   - inversion Hok as [|? ? Hs Hr]; subst. cbn [forallb] in Hf. apply andb_true_iff in Hf. destruct Hf as [Hf1 Hf2].
-    cbn [existsb] in Hm. apply orb_false_iff in Hm. destruct Hm as [Hm1 Hm2].
     cbn [thread].
-    destruct (Hs Hf1 Hm1 flv slv g X seg rest en Heq) as [seg1 [H1 E1]].
+    destruct (Hs Hf1 flv slv g X seg rest en Heq) as [seg1 [H1 E1]].
     { intros x Hxx. specialize (Hx x Hxx). cbn [existsb] in Hx. apply orb_false_iff in Hx. apply Hx. }
     destruct (tr_stat s flv slv g) as [b1 g1]. destruct (b_stat en flv slv s) as [o1 en1]. cbn [fst snd] in *.
-    destruct (IH g1 seg1 en1 Hr Hf2 Hm2 E1) as [seg2 [H2 E2]].
+    destruct (IH g1 seg1 en1 Hr Hf2 E1) as [seg2 [H2 E2]].
     { intros x Hxx. specialize (Hx x Hxx). cbn [existsb] in Hx. apply orb_false_iff in Hx. apply Hx. }
     destruct (thread (fun s0 g0 => tr_stat s0 flv slv g0) r g1) as [b2 g2].
     destruct (thread (fun s0 en0 => b_stat en0 flv slv s0) r en1) as [o2 en2]. cbn [fst snd] in *.
@@ -169,7 +167,6 @@ Qed.
 Lemma alt_thread_sim flv slv X ens en : forall es bs g,
   Forall ExpOK es -> Forall BlockOK bs ->
   forallb frag_exp es = true -> forallb frag_block bs = true ->
-  existsb mlo_exp es = false -> existsb mlo_block bs = false ->
   EQX X (concat ens) en ->
   (forall x, name_mem x X = true -> existsb (mentions_exp x) es = false /\ existsb (mentions_block x) bs = false) ->
   SSim (fst (alt_thread
@@ -179,13 +176,11 @@ Lemma alt_thread_sim flv slv X ens en : forall es bs g,
        ens ens
        (interleave (map (b_exp en flv) es) (map (fun b => fst (b_block en flv (slv + 1) b)) bs)).
 Proof.
-  induction es as [|e es' IH]; intros bs g He Hb Hfe Hfb Hme Hmb Heq Hx; [apply SSim_nil|].
+  induction es as [|e es' IH]; intros bs g He Hb Hfe Hfb Heq Hx; [apply SSim_nil|].
   destruct bs as [|b bs']; [apply SSim_nil|].
   inversion He as [|? ? He1 He2]; subst. inversion Hb as [|? ? Hb1 Hb2]; subst.
   cbn [forallb] in Hfe, Hfb. apply andb_true_iff in Hfe. destruct Hfe as [Hfe1 Hfe2].
   apply andb_true_iff in Hfb. destruct Hfb as [Hfb1 Hfb2].
-  cbn [existsb] in Hme, Hmb. apply orb_false_iff in Hme. destruct Hme as [Hme1 Hme2].
-  apply orb_false_iff in Hmb. destruct Hmb as [Hmb1 Hmb2].
   assert (Hx1 : forall x, name_mem x X = true -> mentions_exp x e = false).
   { intros x Hxx. destruct (Hx x Hxx) as [A _]. cbn [existsb] in A. apply orb_false_iff in A. apply A. }
   assert (Hx2 : forall x, name_mem x X = true -> mentions_block x b = false).
@@ -195,99 +190,100 @@ Proof.
   { intros x Hxx. destruct (Hx x Hxx) as [A B]. cbn [existsb] in A, B.
     apply orb_false_iff in A. apply orb_false_iff in B. split; [apply A|apply B]. }
   cbn [map alt_thread interleave].
-  pose proof (He1 Hfe1 Hme1 None flv (set_inif g true) X ens en Heq Hx1) as H1.
+  pose proof (He1 Hfe1 None flv (set_inif g true) X ens en Heq Hx1) as H1.
   destruct (tr_exp e None flv (set_inif g true)) as [a1 g1]. cbn [fst] in H1.
-  destruct (Hb1 Hfb1 Hmb1 flv (slv + 1) (set_inif g1 false) X [] ens en Heq Hx2) as [seg' [H2 _]].
+  destruct (Hb1 Hfb1 flv (slv + 1) (set_inif g1 false) X [] ens en Heq Hx2) as [seg' [H2 _]].
   destruct (tr_block b flv (slv + 1) (set_inif g1 false)) as [a2 g2]. cbn [fst] in H2.
-  pose proof (IH bs' g2 He2 Hb2 Hfe2 Hfb2 Hme2 Hmb2 Heq Hx3) as H3.
+  pose proof (IH bs' g2 He2 Hb2 Hfe2 Hfb2 Heq Hx3) as H3.
   destruct (alt_thread _ _ g2) as [a3 g3]. cbn [fst] in *.
   eapply SSim_app; [exact H1|]. eapply SSim_app; [|exact H3]. eapply SSim_scope. exact H2.
 Qed.
 
-(* ------------------------------------------------------------------ local n_0, ... = e_0, ... *)
-Definition local_go (flv : N) : list name -> list loc -> list attr -> list exp -> ign -> list action * ign :=
+(* ------------------------------------------------------------------ local n_0, ... = e_0, ...
+   (since fixes/C07-multi-local-order.diff: the initialisers first, all in the environment of the statement, then the
+   names; the exclusion set X of the induction is no longer extended here) *)
+Definition local_vis (flv : N) : list name -> list loc -> list attr -> list exp -> ign -> list action * ign :=
   fix go (ns : list name) (ls : list loc) (ats : list attr) (es : list exp) (g : ign) {struct es} : list action * ign :=
   match es with
   | e :: es' =>
     let (a1, g1) := tr_exp e None flv g in
     match ns, ls, ats with
-    | n :: ns', l :: ls', a :: ats' =>
-      let v := mkVar n l false (match a with AttrClose => true | _ => false end) (is_func_exp e) (Some e)
-                     (local_refer_empty n e) [] in
-      match es' with
-      | [] => (a1 ++ AAdd v :: local_rest ns' ls' ats' (if is_call_exp e then Some e else None), g1)
-      | _ => let (a2, g2) := go ns' ls' ats' es' g1 in (a1 ++ AAdd v :: a2, g2)
-      end
-    | _, _, _ => (a1, g1)
+    | _ :: ns', _ :: ls', _ :: ats' => let (a2, g2) := go ns' ls' ats' es' g1 in (a1 ++ a2, g2)
+    | _, _, _ => (a1 ++ [], g1)
     end
-  | [] => (local_rest ns ls ats None, g)
+  | [] => ([], g)
   end.
-
-Lemma local_go_nil flv ns ls ats g : local_go flv ns ls ats [] g = (local_rest ns ls ats None, g).
-Proof. reflexivity. Qed.
-
-Lemma local_go_cons flv n ns' l ls' a ats' e es' g :
-  local_go flv (n :: ns') (l :: ls') (a :: ats') (e :: es') g =
-  let (a1, g1) := tr_exp e None flv g in
-  let v := mkVar n l false (match a with AttrClose => true | _ => false end) (is_func_exp e) (Some e)
-                 (local_refer_empty n e) [] in
-  match es' with
-  | [] => (a1 ++ AAdd v :: local_rest ns' ls' ats' (if is_call_exp e then Some e else None), g1)
-  | _ => let (a2, g2) := local_go flv ns' ls' ats' es' g1 in (a1 ++ AAdd v :: a2, g2)
-  end.
-Proof. reflexivity. Qed.
 
 Lemma tr_stat_local ns ls ats es l flv slv g :
-  tr_stat (SLocal ns ls ats es l) flv slv g = local_go flv ns ls ats es g.
+  tr_stat (SLocal ns ls ats es l) flv slv g =
+  let (a1, g1) := local_vis flv ns ls ats es g in (a1 ++ local_add_acts ns ls ats es, g1).
 Proof. reflexivity. Qed.
+
+Lemma local_vis_thread flv : forall es ns ls ats g,
+  local_vis flv ns ls ats es g = thread (fun x g0 => tr_exp x None flv g0) (local_visited ns ls ats es) g.
+Proof.
+  induction es as [|e es' IH]; intros ns ls ats g; [reflexivity|].
+  cbn [local_vis local_visited thread]. destruct (tr_exp e None flv g) as [a1 g1].
+  destruct ns as [|n ns']; [reflexivity|]. destruct ls as [|l ls']; [reflexivity|].
+  destruct ats as [|a ats']; [reflexivity|].
+  change ((fix go (ns : list name) (ls : list loc) (ats : list attr) (es : list exp) (g : ign) {struct es}
+             : list action * ign :=
+             match es with
+             | e0 :: es'0 =>
+               let (a2, g2) := tr_exp e0 None flv g in
+               match ns, ls, ats with
+               | _ :: ns'0, _ :: ls'0, _ :: ats'0 => let (a3, g3) := go ns'0 ls'0 ats'0 es'0 g2 in (a2 ++ a3, g3)
+               | _, _, _ => (a2 ++ [], g2)
+               end
+             | [] => ([], g)
+             end) ns' ls' ats' es' g1) with (local_vis flv ns' ls' ats' es' g1).
+  rewrite IH. reflexivity.
+Qed.
+
+(* under the fragment's length conditions every initialiser is visited *)
+Lemma local_visited_all : forall es ns ls ats,
+  length ns = length ls -> length ns = length ats -> (length es <= length ns)%nat -> local_visited ns ls ats es = es.
+Proof.
+  induction es as [|e es' IH]; intros ns ls ats Hl Ha Hle; [reflexivity|].
+  destruct ns as [|n ns']; [cbn in Hle; lia|]. destruct ls as [|l ls']; [discriminate|].
+  destruct ats as [|a ats']; [discriminate|]. cbn [local_visited]. f_equal. apply IH; cbn in *; lia.
+Qed.
 
 Lemma name_mem_cons x n X : name_mem x (n :: X) = name_eqb x n || name_mem x X.
 Proof. reflexivity. Qed.
 
-Lemma local_go_sim flv rest en : forall es ns ls ats g X extras seg,
+(* the names are added after the initialisers: nothing is logged *)
+Lemma SSim_local_adds : forall es ns ls ats seg ens,
   length ns = length ls -> length ns = length ats -> (length es <= length ns)%nat ->
-  Forall ExpOK es -> forallb frag_exp es = true -> existsb mlo_exp es = false -> multi_local_bad ns es = false ->
-  EQX X (concat (seg :: rest)) en ->
-  (forall m l, In (m, l) extras -> name_mem m X = true) ->
-  (forall x, name_mem x X = true -> existsb (mentions_exp x) es = false) ->
-  SSim (fst (local_go flv ns ls ats es g)) ((extras ++ seg) :: rest)
-       ((rev (combine ns ls) ++ extras ++ seg) :: rest) (flat_map (b_exp en flv) es).
+  SSim (local_add_acts ns ls ats es) (seg :: ens) ((rev (combine ns ls) ++ seg) :: ens) [].
 Proof.
-  induction es as [|e es' IH]; intros ns ls ats g X extras seg Hl Ha Hle Hok Hf Hm Hml Heq Hex Hx.
-  - rewrite local_go_nil. cbn [fst flat_map]. apply SSim_local_rest; assumption.
+  induction es as [|e es' IH]; intros ns ls ats seg ens Hl Ha Hle.
+  - cbn [local_add_acts]. apply SSim_local_rest; assumption.
   - destruct ns as [|n ns']; [cbn in Hle; lia|].
     destruct ls as [|l ls']; [discriminate|]. destruct ats as [|a ats']; [discriminate|].
     assert (Hl' : length ns' = length ls') by (cbn [length] in Hl; lia).
     assert (Ha' : length ns' = length ats') by (cbn [length] in Ha; lia).
     assert (Hle' : (length es' <= length ns')%nat) by (cbn [length] in Hle; lia).
-    inversion Hok as [|? ? He Hr]; subst.
-    cbn [forallb] in Hf. apply andb_true_iff in Hf. destruct Hf as [Hf1 Hf2].
-    cbn [existsb] in Hm. apply orb_false_iff in Hm. destruct Hm as [Hm1 Hm2].
-    cbn [multi_local_bad] in Hml. apply orb_false_iff in Hml. destruct Hml as [Hml1 Hml2].
-    assert (Heq' : EQX X (concat ((extras ++ seg) :: rest)) en).
-    { cbn [concat]. rewrite <- app_assoc. apply EQX_extras; [exact Hex|exact Heq]. }
-    assert (Hx1 : forall x, name_mem x X = true -> mentions_exp x e = false).
-    { intros x Hxx. specialize (Hx x Hxx). cbn [existsb] in Hx. apply orb_false_iff in Hx. apply Hx. }
-    pose proof (He Hf1 Hm1 None flv g X ((extras ++ seg) :: rest) en Heq' Hx1) as H1.
-    rewrite local_go_cons. destruct (tr_exp e None flv g) as [a1 g1]. cbn [fst] in H1. cbv zeta.
+    cbn [local_add_acts combine rev]. rewrite <- app_assoc. cbn [app].
     set (v := mkVar n l false (match a with AttrClose => true | _ => false end) (is_func_exp e) (Some e)
                     (local_refer_empty n e) []).
-    cbn [combine rev flat_map]. rewrite <- app_assoc. cbn [app].
     destruct es' as [|e2 es2].
-    + cbn [fst flat_map]. eapply SSim_app; [exact H1|].
-      refine (SSim_cons _ _ _ _ _ _ _ (SSim_add v (extras ++ seg) rest) _).
-      apply SSim_local_rest; assumption.
-    + assert (Heq2 : EQX (n :: X) (concat (seg :: rest)) en).
-      { eapply EQX_weaken; [|exact Heq]. intros m Hmm. rewrite name_mem_cons, Hmm. apply orb_true_r. }
-      pose proof (IH ns' ls' ats' g1 (n :: X) ((n, l) :: extras) seg) as H2.
-      destruct (local_go flv ns' ls' ats' (e2 :: es2) g1) as [a2 g2]. cbn [fst] in *.
-      eapply SSim_app; [exact H1|].
-      refine (SSim_cons _ _ _ _ _ _ _ (SSim_add v (extras ++ seg) rest) _).
-      apply H2; auto.
-      * intros m l0 [Hin|Hin].
-        -- injection Hin as <- <-. rewrite name_mem_cons, name_eqb_refl. reflexivity.
-        -- rewrite name_mem_cons, (Hex m l0 Hin). apply orb_true_r.
-      * intros x Hxx. rewrite name_mem_cons in Hxx. apply orb_true_iff in Hxx. destruct Hxx as [Hxn|Hxx].
-        -- apply name_eqb_eq in Hxn. subst x. exact Hml1.
-        -- specialize (Hx x Hxx). cbn [existsb] in Hx. apply orb_false_iff in Hx. apply Hx.
+    + refine (SSim_cons _ _ _ _ _ _ _ (SSim_add v seg ens) _). apply SSim_local_rest; assumption.
+    + refine (SSim_cons _ _ _ _ _ _ _ (SSim_add v seg ens) _). apply IH; assumption.
+Qed.
+
+Lemma local_go_sim flv slv l rest en : forall es ns ls ats g X seg,
+  length ns = length ls -> length ns = length ats -> (length es <= length ns)%nat ->
+  Forall ExpOK es -> forallb frag_exp es = true ->
+  EQX X (concat (seg :: rest)) en ->
+  (forall x, name_mem x X = true -> existsb (mentions_exp x) es = false) ->
+  SSim (fst (tr_stat (SLocal ns ls ats es l) flv slv g)) (seg :: rest)
+       ((rev (combine ns ls) ++ seg) :: rest) (flat_map (b_exp en flv) es).
+Proof.
+  intros es ns ls ats g X seg Hl Ha Hle Hok Hf Heq Hx.
+  rewrite tr_stat_local, local_vis_thread, (local_visited_all es ns ls ats Hl Ha Hle).
+  pose proof (thread_exps flv X (seg :: rest) en es g Hok Hf Heq Hx) as H1.
+  destruct (thread (fun x g0 => tr_exp x None flv g0) es g) as [a1 g1]. cbn [fst] in *.
+  rewrite <- (app_nil_r (flat_map (b_exp en flv) es)).
+  eapply SSim_app; [exact H1|]. apply SSim_local_adds; assumption.
 Qed.
